@@ -181,10 +181,12 @@ theorem tot3_prepare {w : World} (h : WOk w) (e : Evm.Env) (spec ig : Nat)
   obtain ⟨wa, rf⟩ := p
   dsimp only at hp ⊢
   split
-  · refine tot3_bind' (tot3_makeFrame (cfg := e.toCfg spec) hp.ok (.call _) Memory.new) (fun q heq hq => ?_)
+  · refine tot3_bind' (tot3_makeFrame (cfg := e.toCfg spec) hp.ok (.call _) Memory.new
+      (by intro i hx; cases hx)) (fun q heq hq => ?_)
     obtain ⟨f, wf⟩ := q
     exact tot3_pure (first_of_fout hp.ok hq.1 hq.2 (fun r hr => by subst hr; exact makeCallFrame_rgood heq) _ _)
-  · refine tot3_bind' (tot3_makeFrame (cfg := e.toCfg spec) hp.ok (.create _) Memory.new) (fun q heq hq => ?_)
+  · refine tot3_bind' (tot3_makeFrame (cfg := e.toCfg spec) hp.ok (.create _) Memory.new
+      (by intro i hx; cases hx)) (fun q heq hq => ?_)
     obtain ⟨f, wf⟩ := q
     exact tot3_pure (first_of_fout hp.ok hq.1 hq.2 (fun r hr => by subst hr; exact makeCreateFrame_rgood heq) _ _)
 
